@@ -18,7 +18,8 @@ import numpy as np
 from ..contracts import attach, detach_all, quiet
 from ..core import REPO, max_err
 from ..polyhard import (cfg32, clear_caches, warm32, layouts, stack_layouts, is_c_contig, contig, coef_containers, foreign_traffic,
-                        term_containers, PARAM_FORMS, INT_PARAM_FORMS)
+                        term_containers, PARAM_FORMS, INT_PARAM_FORMS,
+                        scales, ulps, special_class, near_special_jacobi, EXACT_SPECIAL_JACOBI, GENERIC_NEIGHBOURS_JACOBI, term_orderings, layout_patterns)
 from ..util import precision
 
 RULE = ('one case = one coefficient set (class: dense / sparse single term at each position / length 1 / cosine-only / '
@@ -41,7 +42,14 @@ RULE = ('one case = one coefficient set (class: dense / sparse single term at ea
         'complex128 / integer (lstsq), data int64 / int32 / float32 / masked array, non-integer data with integer mode stacks; alpha, beta as numpy float64 / float32 / python int / numpy '
         'int64 and the STANDING parameter lines alpha + beta = -1 and = 0 with alpha != beta; the coordinate as python float / python int / numpy float64 / 0-d; m of clenshaw_q2d as numpy '
         'integers; alphas=None explicit vs omitted vs an explicit work array; Q2d_nm_c_to_a_b with every container form of both arguments; class F - every fast path and the fit judged '
-        'after unmonitored traffic through the shared tables from the other routines of the library')
+        'after unmonitored traffic through the shared tables from the other routines of the library. Hardening pass 3: class G - coefficients scaled by 1e-12 ... 1e12 through all sixteen fast paths '
+        '(against the explicit sum of the same scaled coefficients and the law f(s c) = s f(c)), sum_of_2d_modes with weights / modes scaled, lstsq with data / modes / both / individual columns '
+        'scaled; class H - shape parameters special only UP TO ROUNDING (alpha = 0.1 + 0.2, beta = -0.3; alpha + beta = -1 +- 1 ulp; one ulp from 0, +-1/2, an integer; alpha -> -1), exactly special '
+        'ones and generic neighbours through jacobi_sum_clenshaw; radial points exactly on the axis, on the rim, at u = 1/2 (x = 0), one ulp inside the rim as arrays / 2-D / 0-d / length-1 for every '
+        'fast path; class I - EVERY pattern of empty / length-1 / length-5 coefficient lists over m = 0 .. 4 (243 layouts) through compute_z_zprime_Q2d, every ordering of the (n, m) list of '
+        'Q2d_nm_c_to_a_b; class J - modes / design columns NON-FINITE AT EXACTLY THE MASKED SAMPLES (NaN, +inf, -inf, mixed; all columns / one column / a strict subset of the masked samples; '
+        'outside an aperture, isolated samples, rows, columns, a single sample, the first samples, all but k + 2 samples), aperture-limited zernike / 2D-Q bases with data synthesised from them '
+        'through sum_of_2d_modes, a column with a pole at the one dropped sample, 1-D samples, masks all-valid / single-valid-sample / all-masked: the fit must be the fit on the valid samples only')
 ASSUMPTIONS = ['the single-mode routines (jacobi, Qbfs, Qcon, Q2d, zernike_nm) define the modes (their values are C07)',
                'float64 accumulation of <= 40 terms is exact to 1e-13 relative to sum |c_k| sup|mode_k|',
                'numpy.linalg (qr, solve, matrix_rank, cond) is the trusted base for the least-squares oracle',
@@ -52,12 +60,18 @@ ASSUMPTIONS = ['the single-mode routines (jacobi, Qbfs, Qcon, Q2d, zernike_nm) d
                'a coefficient vector may be any sequence of real numbers (list, tuple, ndarray of a floating or integer dtype, numpy scalars)',
                'argument forms (class E): the accepted forms are DATA established on /repo @ faa8443: integer mode stacks in sum_of_2d_modes (weights are cast to the mode dtype), complex weights '
                'with real modes, generators as weights / mode stacks, list data in lstsq, integer ndarray coordinates of the Clenshaw routines and evaluators, python int coordinates of the Q '
-               'evaluators, 2D-Q sums of more than 201 radial coefficients (RecursionError of the memoised f/g tables when cold) are out of domain: excluded and counted']
+               'evaluators, 2D-Q sums of more than 201 radial coefficients (RecursionError of the memoised f/g tables when cold) are out of domain: excluded and counted',
+               'class J domain (established on /repo @ c2c1d7f: lstsq masks data AND modes by isfinite(data) before anything else is computed; the seeded change C10-H\'s demonstration passes on the clean '
+               'tree): a fit whose modes are non-finite ONLY at samples where the data are non-finite is in domain ("ignoring exactly the non-finite samples": nothing about an ignored sample may '
+               'enter the fit); a mode that is non-finite at a VALID sample is out of domain (excluded and counted); a mask that leaves no valid sample is out of domain (basis not independent)',
+               'fast sums and the fit are homogeneous in coefficients / data: scale factors 1e-12 ... 1e12 are judged at the ordinary RELATIVE tolerance (s c is rounded once per coefficient)',
+               'jacobi_sum_clenshaw and the explicit sum over jacobi() evaluate the same function, smooth in (alpha, beta): parameters special only up to rounding are judged at the ordinary tolerance']
 REQUIRED = ['alias.arguments-intact', 'alias.result-stable', 'sum_of_2d_modes', 'jacobi_sum_clenshaw', 'clenshaw_qbfs', 'compute_z_zprime_Qbfs.sag',
             'compute_z_zprime_Qcon.sag', 'compute_z_zprime_Q2d.sag', 'Q2d_nm_c_to_a_b.structure',
             'Q2d_nm_c_to_a_b->compute_z_zprime_Q2d', 'lstsq.solution', 'lstsq.recovers-synthesis',
             'lstsq.ignores-exactly-nonfinite', 'pvr.consumer',
-            'classA.array-arguments-reused', 'classD.very-high-orders', 'classE.argument-forms', 'classF.foreign-traffic']
+            'classA.array-arguments-reused', 'classD.very-high-orders', 'classE.argument-forms', 'classF.foreign-traffic',
+            'classG.scale-laws', 'classH.special-parameters', 'classH.special-points', 'classI.orderings', 'classI.layouts', 'classJ.validity-patterns']
 
 CTX = None
 RTOL = 1e-10
@@ -206,6 +220,21 @@ def compare_form(monitor, got, ref, scale, base_key, form, canonical, what, desc
     return compare(monitor, got, ref, scale, key, what, desc, rtol=rtol)
 
 
+def special_key(key, params, rerun, ref, scale, rtol=RTOL):
+    """Class H attribution for the Jacobi fast sum: the shape parameters are special only up to rounding (vp.polyhard.special_class) and the routine equals the explicit sum again at
+    the exactly special neighbour -> C10/jacobi_sum_clenshaw/special:<line> (the explicit sum moves by a rounding error of the parameters, far below the tolerance)."""
+    sp = special_class(tuple(float(v) for v in params))
+    if sp is None or sp[1] is None:
+        return key
+    try:
+        with quiet(), np.errstate(all='ignore'):
+            if ok_close(rerun(sp[1]), ref, scale, 10 * rtol):
+                return f'C10/jacobi_sum_clenshaw/special:{sp[0]}'
+    except Exception:  # noqa
+        pass
+    return key
+
+
 def ok_close(got, ref, scale, rtol=RTOL):
     g, r = np.asarray(got), np.asarray(ref)
     return g.shape == r.shape and max_err(g, r) <= 1e-300 + rtol * scale
@@ -279,9 +308,16 @@ def post_lstsq(token, args, kwargs, result):
     if M.dtype.kind not in 'fiu' or d.dtype.kind not in 'fiu' or not isinstance(data, np.ndarray) or M.ndim < 2 or M.shape[1:] != d.shape:
         CTX.skip('lstsq:outside-stated-domain(dtype/shape)')
         return
-    if not np.all(np.isfinite(M)):
-        CTX.skip('lstsq:non-finite-modes')
-        return
+    nonfinite_modes = not np.all(np.isfinite(M))
+    if nonfinite_modes:
+        # class J (HARDENING3): "ignoring exactly the non-finite samples" - a sample whose datum is non-finite is ignored, so the value a mode takes THERE (NaN outside an aperture,
+        # a pole at r = 0) must not enter the fit.  Established on /repo @ c2c1d7f: lstsq masks data and modes by isfinite(data) before anything else is computed (the seeded
+        # change C10-H's demonstration passes on the clean tree).  In domain: every mode finite at every VALID sample; otherwise excluded and counted.
+        valid = np.isfinite(d)
+        if not np.all(np.isfinite(M[:, valid])):
+            CTX.skip('lstsq:non-finite-modes-at-valid-samples')
+            return
+        CTX.event('lstsq:modes-non-finite-at-exactly-masked-samples')
     c, ok, cond, A, b = ls_oracle(M, d)
     if not ok:
         CTX.skip('lstsq:rank-deficient-on-valid-samples')
@@ -291,7 +327,7 @@ def post_lstsq(token, args, kwargs, result):
         return
     f32 = M.dtype == np.float32 or d.dtype == np.float32 or cfg32()
     desc = {'fn': 'lstsq', 'k': int(M.shape[0]), 'shape': list(d.shape), 'valid': int(A.shape[0]), 'cond': cond,
-            'class': f'lstsq:contract:{"all-finite" if A.shape[0] == d.size else "masked"}'}
+            'class': f'lstsq:contract:{"all-finite" if A.shape[0] == d.size else "masked"}' + (':modes-nonfinite-at-masked-samples' if nonfinite_modes else '')}
     rt = (2e-4 if f32 else 1e-8) * max(cond, 1.0)
     # residual-aware scale: perturbation theory for LS adds cond^2 * |r|/|A||c|; keep noisy fits modest in cond
     r = A @ c - b
@@ -308,6 +344,15 @@ def post_lstsq(token, args, kwargs, result):
         mech = mechanism(recheck, [modes, data])
         if mech:
             key = key + '/' + mech
+        elif nonfinite_modes:
+            # right once the non-finite mode values at the ignored samples are replaced by finite ones -> the defect is that those values enter the fit
+            try:
+                with quiet(), np.errstate(all='ignore'):
+                    g2 = np.asarray(ORIG['lstsq'](np.where(np.isfinite(M), M, 0.0), d))
+                if g2.shape == c.shape and max_err(g2, c) <= tol:
+                    key = key + '/modes-nonfinite-at-masked-samples'
+            except Exception:  # noqa
+                pass
     CTX.close('lstsq.solution', got, c, key, 'lstsq != least-squares solution on exactly the finite samples', desc, rtol=rt, atol=extra + 1e-300,
               scale=max(sup(c), 1e-300))
 
@@ -379,8 +424,10 @@ def run_jacobi(ctx, counter):
                     got = jacobi_sum_clenshaw(arg, al, be, x)
                     with quiet():
                         ref, scale = explicit_sum(s, lambda k: jacobi(k, al, be, x))
-                    compare('jacobi_sum_clenshaw', got, ref, scale, f'C10/jacobi_sum_clenshaw/{lenclass(len(s))}',
-                            'jacobi_sum_clenshaw != explicit sum of s_n * jacobi(n)', desc)
+                    key = f'C10/jacobi_sum_clenshaw/{lenclass(len(s))}'
+                    if not ok_close(got, ref, scale):
+                        key = special_key(key, (al, be), lambda nb: jacobi_sum_clenshaw(arg, nb[0], nb[1], x), ref, scale)
+                    compare('jacobi_sum_clenshaw', got, ref, scale, key, 'jacobi_sum_clenshaw != explicit sum of s_n * jacobi(n)', desc)
 
 
 def run_qbfs_qcon(ctx, counter):
@@ -1442,6 +1489,343 @@ def foreign_units(ctx):
                 ctx.close('lstsq.recovers-synthesis', P.lstsq(modes, data), c, 'C10/lstsq/recovers-synthesis', 'lstsq != c after foreign traffic', desc, rtol=1e-8 * max(cond, 1.0), atol=1e-300, scale=sup(c))
 
 
+# ------------------------------------------------------------------------------------------ hardening pass 3 (HARDENING3.md G, H, I, J)
+def regime(s):
+    return 'tiny' if s < 1 else ('huge' if s > 1 else 'unit')
+
+
+def scale_units(ctx, part, nparts):
+    """Class G: every fast sum, sum_of_2d_modes and the fit are LINEAR / homogeneous in the coefficients (weights, data) - coefficient vectors scaled by 1e-12 ... 1e12 (not powers
+    of two: s * c is rounded like any user input) through every fast path, judged against the explicit sum of the SAME scaled coefficients (the tolerance is proportional to
+    sum |c_k| sup |mode_k|, so a tiny regime is judged as strictly as a unit one) and by the scale law f(s c) = s f(c); lstsq with the data scaled (c -> s c), the modes scaled
+    (c -> c / s), both, and the columns scaled individually.  The radial points include the axis, the rim and u = 1/2 (x = 0)."""
+    from prysm import polynomials as P
+    PT = paths()
+    u = np.array([0.0, 0.21875, 0.5, 0.84375, 1.0])
+    idx = -1
+    for L in (1, 2, 5, 9, 19) + ctx.pick((), (3, 42)):
+        rng = case_rng('scale', L)
+        c0 = [float(v) for v in rng.normal(size=L)]
+        base = {}
+        for s in (1.0,) + tuple(scales(ctx.quick)):
+            idx += 1
+            reg = regime(s)
+            cs = [v * s for v in c0]
+            for label, (fast, mode, az) in PT.items():
+                if s != 1.0 and idx % nparts != part:
+                    continue
+                desc = {'fn': fn_of(label), 'path': label, 'len': L, 'scale': s, 'class': f'{fn_of(label)}:scale:{reg}'}
+                if s != 1.0:
+                    ctx.case(desc)
+                    ctx.observe('classG.scale-laws')
+                    path_check(ctx, label, fast, mode, np.array(cs) if L % 2 else cs, cs, u, u, desc, f'scale:{reg}')
+                with guard(fn_of(label), desc, lenclass(L), [lenclass(L), 'list-len1'] if L == 1 else [lenclass(L)]):
+                    with np.errstate(all='ignore'):
+                        got = np.asarray(fast(list(cs), u), dtype=float)
+                    if s == 1.0:
+                        base[label] = got
+                    elif label in base:
+                        ref = s * base[label]
+                        with quiet():
+                            _, sc = explicit_sum(cs, lambda k: mode(k, u))
+                        compare('classG.scale-laws', got, ref, sc, f'C10/{fn_of(label)}/scale-law:{reg}', f'{fn_of(label)}: the sum for coefficients scaled by s is not s times the sum for the unscaled coefficients', desc,
+                                rtol=RTOL * max(1.0, (L / 20.0) ** 2))
+    if part != 0:
+        return
+    # sum_of_2d_modes and lstsq
+    rng = case_rng('scale', 'lstsq')
+    for shape, kind in (((12, 12), 'zernike'), ((8, 9), 'legendre-xy'), ((1, 24), 'legendre-xy')):
+        with quiet():
+            M = np.asarray(basis(rng, kind, shape), dtype=float)
+        k = M.shape[0]
+        c = rng.normal(size=k)
+        synth = np.tensordot(c, M, axes=(0, 0))
+        mask = rng.random(shape) < 0.12
+        data = synth.copy()
+        data[mask] = np.nan
+        cref, ok, cond, A, b = ls_oracle(M, data)
+        if not ok or cond > 1e4:
+            ctx.skip('lstsq:rank-deficient-or-ill-conditioned-on-valid-samples')
+            continue
+        for s in scales(ctx.quick):
+            reg = regime(s)
+            desc = {'fn': 'sum_of_2d_modes', 'basis': kind, 'shape': list(shape), 'scale': s, 'class': f'sum_of_2d_modes:scale:{reg}'}
+            ctx.case(desc)
+            ctx.observe('classG.scale-laws')
+            with guard('sum_of_2d_modes', desc, f'scale:{reg}'):
+                sc = float(np.sum(np.abs(c) * np.abs(M.reshape(k, -1)).max(axis=1)))
+                for lab, got in (('weights-scaled', P.sum_of_2d_modes(M, c * s)), ('modes-scaled', P.sum_of_2d_modes(M * s, c)), ('list-modes-scaled', P.sum_of_2d_modes([m * s for m in M], list(c)))):
+                    compare('classG.scale-laws', got, s * synth, s * sc, f'C10/sum_of_2d_modes/scale:{reg}', f'sum_of_2d_modes with the {lab.replace("-", " ")} by s is not s times the unscaled sum', dict(desc, scaled=lab))
+                gb = P.sum_of_2d_modes_backprop(M * s, synth)
+                rb = s * np.array([float(np.sum(M[i] * synth)) for i in range(k)])
+                compare('classG.scale-laws', gb, rb, sup(rb), f'C10/sum_of_2d_modes_backprop/scale:{reg}', 'sum_of_2d_modes_backprop with the modes scaled by s is not s times the unscaled result', desc)
+            cols = 10.0 ** rng.integers(-1, 2, size=k)
+            for lab, mo, da, want in (('data-scaled', M, s * data, s * c), ('modes-scaled', s * M, data, c / s), ('both-scaled', s * M, s * data, c),
+                                      ('list-modes-scaled', [m * s for m in M], data, c / s), ('columns-scaled-individually', M * cols.reshape(-1, *([1] * (M.ndim - 1))), s * data, s * c / cols)):
+                desc = {'fn': 'lstsq', 'basis': kind, 'shape': list(shape), 'scale': s, 'scaled': lab, 'class': f'lstsq:scale:{reg}:{lab}'}
+                ctx.case(desc)
+                with guard('lstsq', desc, f'scale:{reg}'):
+                    chat = P.lstsq(mo, da)
+                    cn = cond * (1e2 if lab.startswith('columns') else 1.0)
+                    ctx.close('classG.scale-laws', chat, want, f'C10/lstsq/scale:{reg}', f'lstsq with the {lab.replace("-", " ")} does not return the correspondingly scaled synthesising coefficients', desc,
+                              rtol=1e-8 * max(cn, 1.0), atol=1e-300, scale=sup(want))
+
+
+def special_parameter_units(ctx):
+    """Class H, shape parameters special only UP TO ROUNDING (alpha = 0.1 + 0.2, beta = -0.3: alpha + beta is a rounding residue; alpha + beta = -1 +- 1 ulp; one ulp from 0, +-1/2,
+    an integer; alpha -> -1), the exactly special ones and clearly generic neighbours, through jacobi_sum_clenshaw against the explicit sum over jacobi() at the SAME parameters
+    (both are smooth in them: the ordinary tolerance applies); x includes -1, 0, 1.  A failure that disappears at the exactly special neighbour is keyed
+    C10/jacobi_sum_clenshaw/special:<line>."""
+    from prysm.polynomials import jacobi, jacobi_sum_clenshaw
+    rng = case_rng('special-parameters')
+    x = np.array([-1.0, -0.5625, 0.0, 0.0625, 0.71875, 1.0])
+    cases = [('special:' + c, ab) for c, ab, nb in near_special_jacobi(not ctx.quick)] + [('exactly-special', ab) for ab in EXACT_SPECIAL_JACOBI] + [('generic-neighbour', ab) for ab in GENERIC_NEIGHBOURS_JACOBI]
+    for cls, (al, be) in cases:
+        for L in (1, 2, 3, 6, 19):
+            c0 = [float(v) for v in rng.normal(size=L)]
+            for form, xv in (('1d', x), ('2d', x.reshape(2, 3)), ('0d', np.array(0.0))):
+                if form != '1d' and L not in (2, 6):
+                    continue
+                desc = {'fn': 'jacobi_sum_clenshaw', 'alpha': repr(al), 'beta': repr(be), 'pclass': cls, 'len': L, 'x': form, 'class': f'jacobi_sum_clenshaw:{cls}'}
+                ctx.case(desc)
+                ctx.observe('classH.special-parameters')
+                with guard('jacobi_sum_clenshaw', desc, lenclass(L), [lenclass(L)]):
+                    arg = c0 if L % 2 else np.array(c0)
+                    got = jacobi_sum_clenshaw(arg, al, be, xv)
+                    with quiet():
+                        ref, scale = explicit_sum(c0, lambda k: jacobi(k, al, be, xv))
+                    key = f'C10/jacobi_sum_clenshaw/{lenclass(L)}'
+                    if not ok_close(got, ref, scale):
+                        key = special_key(key, (al, be), lambda nb: jacobi_sum_clenshaw(arg, nb[0], nb[1], xv), ref, scale)
+                    compare('jacobi_sum_clenshaw', got, ref, scale, key, 'jacobi_sum_clenshaw != explicit sum of s_n * jacobi(n) for shape parameters that are special (only up to rounding)', desc)
+
+
+def special_point_units(ctx):
+    """Class H, evaluation points exactly on the axis (u = 0), on the rim (u = 1), at u = 1/2 (x = 0), one ulp inside the rim, -0.0: whole arrays, each alone as 0-d and length-1
+    arrays, 2-D, for every fast path."""
+    rng = case_rng('special-points')
+    PT = paths()
+    pts = [0.0, 1.0, 0.5, ulps(1.0, -1), -0.0, 2.0 ** -30]
+    ua = np.array(pts)
+    for L in (1, 2, 4, 9):
+        c0 = [float(v) for v in rng.normal(size=L)]
+        forms = [('array', ua), ('2d', ua.reshape(2, 3))] + [(f'0d:{j}', np.array(v)) for j, v in enumerate(pts[:4])] + [(f'len1:{j}', np.array([v])) for j, v in enumerate(pts[:3])]
+        for form, uv in forms:
+            for label, (fast, mode, az) in PT.items():
+                desc = {'fn': fn_of(label), 'path': label, 'len': L, 'x': form.split(':')[0], 'point': repr(float(np.ravel(uv)[0])) if uv.size == 1 else 'all', 'class': f'{fn_of(label)}:special-points:{form.split(":")[0]}'}
+                ctx.case(desc)
+                ctx.observe('classH.special-points')
+                path_check(ctx, label, fast, mode, c0 if L % 2 else np.array(c0), c0, uv, uv, desc, lenclass(L))
+
+
+def coef_layout_units(ctx, part, nparts):
+    """Class I, coefficient-set layouts: EVERY pattern of empty / length-1 / length-5 lists (length 5 at m = 1: the N > 2 branch with a non-zero correction of sag AND slope) over the azimuthal orders m = 0 .. 4 (3^5 = 243; the sine lists carry the cosine pattern,
+    or the cosine pattern rotated by one order so that one family is absent where the other is populated) through compute_z_zprime_Q2d: the sag against the explicit sum of
+    coefficient times Q2d(n, m), at points that include the axis and the rim."""
+    from prysm.polynomials import Q2d
+    from prysm.polynomials.qpoly import compute_z_zprime_Q2d
+    u = np.array([0.0, 0.21875, 0.53125, 0.84375, 1.0])
+    t = np.array([0.5, 1.75, 3.0, 5.5, 0.0])
+    for pi, pat in enumerate(layout_patterns(5)):
+        if pi % nparts != part:
+            continue
+        rng = case_rng('layout-pattern', pi)
+
+        def mk(c):
+            return [] if c == 'e' else [float(v) for v in rng.normal(size=1 if c == '1' else 5)]
+        cm0 = mk(pat[0])
+        ams = [mk(c) for c in pat[1:]]
+        rot = pat[2:] + pat[1:2]
+        bms = [mk(c) for c in (rot if pi % 2 else pat[1:])]
+        feat = structure_features(cm0, ams, bms)
+        kl = mismatch_label(feat, 'layout')
+        desc = {'fn': 'compute_z_zprime_Q2d', 'pattern': ''.join(pat), 'sine-pattern': 'rotated' if pi % 2 else 'same', 'lens': [len(cm0), [len(a) for a in ams], [len(b) for b in bms]],
+                'class': f'compute_z_zprime_Q2d:layout:{kl}'}
+        ctx.case(desc, nontrivial=any(c != 'e' for c in pat))
+        ctx.observe('classI.layouts')
+        with guard('compute_z_zprime_Q2d', desc, kl, feat):
+            z = compute_z_zprime_Q2d(list(cm0), [list(a) for a in ams], [list(b) for b in bms], u, t)[0]
+            with quiet():
+                tot, scale = np.zeros(u.shape), 0.0
+                terms = [(n, 0, c) for n, c in enumerate(cm0)] + [(n, m + 1, c) for m, a in enumerate(ams) for n, c in enumerate(a)] + [(n, -(m + 1), c) for m, b in enumerate(bms) for n, c in enumerate(b)]
+                for n, m, c in terms:
+                    md = np.asarray(Q2d(n, m, u, t), dtype=float)
+                    tot = tot + c * md
+                    scale += abs(c) * sup(md)
+            compare('compute_z_zprime_Q2d.sag', z, tot, max(scale, 1e-300), f'C10/compute_z_zprime_Q2d/{kl}', 'compute_z_zprime_Q2d sag != explicit sum of c * Q2d(n, m) for this layout of empty / length-1 / length-5 lists', desc)
+
+
+def packer_ordering_units(ctx):
+    """Class I for the coefficient re-packing helper: every ordering of the (n, m) list (ascending, descending, grouped by |m|, radial orders non-ascending inside each |m| group,
+    sine terms first, shuffles) must give the SAME dense per-m lists, and the evaluator fed with them the explicit sum."""
+    from prysm.polynomials import Q2d
+    from prysm.polynomials.qpoly import Q2d_nm_c_to_a_b, compute_z_zprime_Q2d
+    rng = np.random.default_rng([CTX.seed, 1010])
+    u = np.array([0.0, 0.21875, 0.53125, 0.84375, 1.0])
+    t = np.array([0.5, 1.75, 3.0, 5.5, 0.0])
+    sets = [[(n, m) for n in range(3) for m in range(-2, 3)], [(0, 0), (2, 0), (0, 1), (3, 1), (1, -1), (0, -1), (2, 3), (0, -3), (1, 2), (0, 2), (0, -2), (4, -2)], [(1, 0), (0, 1), (1, 1), (0, -1), (1, -1)],
+            [(n, m) for n in range(ctx.pick(4, 6)) for m in range(-3, 4) if (n + m) % 3]]
+    for si, base in enumerate(sets):
+        cmap = {e: float(v) for e, v in zip(base, rng.normal(size=len(base)))}
+        exp = expected_packing(base, [cmap[e] for e in base])
+        with quiet():
+            tot, scale = np.zeros(u.shape), 0.0
+            for (n, m), c in cmap.items():
+                md = np.asarray(Q2d(n, m, u, t), dtype=float)
+                tot, scale = tot + c * md, scale + abs(c) * sup(md)
+        for lab, o in term_orderings(base, rng, ctx.pick(3, 10)):
+            coefs = [cmap[e] for e in o]
+            desc = {'fn': 'Q2d_nm_c_to_a_b', 'ordering': lab, 'set': si, 'nms': o[:12], 'class': f'Q2d_nm_c_to_a_b:ordering:{lab}'}
+            ctx.case(desc)
+            ctx.observe('classI.orderings')
+            with guard('Q2d_nm_c_to_a_b', desc, 'regular'):
+                packed = Q2d_nm_c_to_a_b(o if si % 2 else np.array(o), coefs)
+                ok = ([float(v) for v in packed[0]] == exp[0] and [[float(q) for q in v] for v in packed[1]] == exp[1] and [[float(q) for q in v] for v in packed[2]] == exp[2])
+                ctx.require('Q2d_nm_c_to_a_b.structure', ok, f'C10/Q2d_nm_c_to_a_b/structure/ordering:{lab}', 'Q2d_nm_c_to_a_b: the dense per-m lists depend on the order in which the (n, m) terms are listed', desc)
+                z = compute_z_zprime_Q2d(packed[0], packed[1], packed[2], u, t)[0]
+                compare('Q2d_nm_c_to_a_b->compute_z_zprime_Q2d', z, tot, scale, f'C10/compute_z_zprime_Q2d/regular/ordering:{lab}', 'compute_z_zprime_Q2d(*Q2d_nm_c_to_a_b(terms in this order)) != explicit sum of c * Q2d(n, m)', desc)
+
+
+def validity_units(ctx):
+    """Class J, degenerate validity patterns for the fit: modes / design columns that are NON-FINITE AT EXACTLY THE MASKED SAMPLES - aperture-limited bases (NaN outside the
+    aperture, the data synthesised from them NaN at the same samples), a column with a pole (1/r at r = 0: +inf at the one dropped sample), columns +-inf / NaN at a strict
+    subset of the masked samples, only some of the columns affected - with the mask as rows / columns / isolated samples / a disc, and masks that are all-valid / all-masked /
+    single-valid-sample.  The fit must be the fit on the valid samples only: it recovers the synthesising coefficients (judged here), equals the independent least-squares
+    solution on exactly the valid samples (judged by the contract) and does not change when the non-finite mode values are replaced by finite junk."""
+    from prysm import polynomials as P
+    rng = case_rng('validity')
+    fills = {'nan': lambda sh: np.full(sh, np.nan), '+inf': lambda sh: np.full(sh, np.inf), '-inf': lambda sh: np.full(sh, -np.inf),
+             'mixed': lambda sh: np.array([np.nan, np.inf, -np.inf])[rng.integers(0, 3, sh)]}
+    shapes = (((16, 16), 'zernike'), ((13, 12), 'q2d'), ((9, 14), 'legendre-xy'), ((1, 41), 'legendre-xy'), ((21, 1), 'single')) + ctx.pick((), (((32, 33), 'zernike'), ((48, 48), 'zernike'), ((7, 60), 'q2d')))
+    for shape, kind in shapes:
+        ny, nx = shape
+        with quiet():
+            M0 = np.asarray(basis(rng, kind, shape), dtype=float)
+        k = M0.shape[0]
+        X, Y = np.meshgrid(np.linspace(-1, 1, nx), np.linspace(-1, 1, ny))
+        R = np.hypot(X, Y)
+        patterns = [('outside-aperture', R > 0.9), ('isolated-samples', rng.random(shape) < 0.1), ('rows', (np.arange(ny)[:, None] % 4 == 1) & (X == X)), ('columns', (np.arange(nx)[None, :] % 5 == 2) & (Y == Y)),
+                    ('single-sample', np.arange(ny * nx).reshape(shape) == (ny * nx) // 2), ('first-samples', np.arange(ny * nx).reshape(shape) < max(2, (ny * nx) // 8)), ('none', np.zeros(shape, bool)),
+                    ('all-but-k+2', np.arange(ny * nx).reshape(shape) % max(1, (ny * nx) // (k + 2)) != 0)]
+        for pl, mask in patterns:
+            for fl in ('nan', '+inf', 'mixed') if ctx.quick else ('nan', '+inf', '-inf', 'mixed'):
+                for which in ('all-modes', 'one-mode', 'subset-of-masked-samples'):
+                    if pl == 'none' and (fl != 'nan' or which != 'all-modes'):
+                        continue
+                    c = rng.normal(size=k)
+                    M = M0.copy()
+                    hole = mask.copy()
+                    if which == 'subset-of-masked-samples':
+                        hole &= rng.random(shape) < 0.5
+                    cols = range(k) if which != 'one-mode' else [int(rng.integers(k))]
+                    for i in cols:
+                        M[i][hole] = fills[fl](shape)[hole]
+                    synth = np.tensordot(c, M0, axes=(0, 0))
+                    data = synth.copy()
+                    data[mask] = fills['nan' if fl == 'nan' else 'mixed'](shape)[mask]
+                    desc = {'fn': 'lstsq', 'basis': kind, 'shape': list(shape), 'masked': pl, 'modes_nonfinite': fl, 'which': which, 'nmasked': int(mask.sum()),
+                            'class': f'lstsq:modes-nonfinite-at-masked-samples:{pl}:{fl}:{which}'}
+                    ctx.case(desc)
+                    cref, ok, cond, A, b = ls_oracle(M0, data)
+                    if not ok or cond > 1e6:
+                        ctx.skip('lstsq:rank-deficient-or-ill-conditioned-on-valid-samples')
+                        continue
+                    ctx.observe('classJ.validity-patterns')
+                    lab = 'modes-nonfinite-at-masked-samples' if hole.any() else ('masked' if mask.any() else 'all-finite')
+                    with guard('lstsq', desc, lab):
+                        form = (M, list(M), np.asfortranarray(M))[(len(pl) + len(which)) % 3]
+                        chat = P.lstsq(form, data)
+                        kf = 'nan' if fl == 'nan' else 'inf'
+                        ctx.close('lstsq.recovers-synthesis', chat, c, f'C10/lstsq/recovers-synthesis/modes-nonfinite-at-masked-samples:{kf}' if hole.any() else 'C10/lstsq/recovers-synthesis',
+                                  'lstsq(modes, data): modes that are non-finite at exactly the samples the data mark as ignored - the fit must be the fit on the valid samples and return the synthesising coefficients',
+                                  desc, rtol=1e-8 * max(cond, 1.0), atol=1e-300, scale=sup(c))
+                        if hole.any():
+                            junk = M.copy()
+                            for i in cols:
+                                junk[i][hole] = 1e30 * rng.normal(size=shape)[hole]
+                            c2 = P.lstsq(junk, data)
+                            ctx.close('lstsq.ignores-exactly-nonfinite', chat, c2, f'C10/lstsq/mode-values-at-masked-samples-matter:{kf}',
+                                      'the fit changes when the mode values at the IGNORED samples change (non-finite vs finite junk): those samples are not ignored exactly', desc,
+                                      rtol=1e-8 * max(cond, 1.0), atol=1e-300, scale=sup(c2))
+    # aperture-limited bases as a user builds them: modes evaluated on the disc only, NaN outside; the synthesis (through sum_of_2d_modes) is NaN at exactly the same samples
+    from prysm.coordinates import make_xy_grid, cart_to_polar
+    for n, diam in ((24, 2.2), (17, 2.5)) + ctx.pick((), ((48, 2.2), (33, 3.0))):
+        x, y = make_xy_grid(n, diameter=diam)
+        r, t = cart_to_polar(x, y)
+        outside = r > 1
+        with quiet():
+            zm = np.asarray(P.zernike_nm_seq([(0, 0), (1, 1), (1, -1), (2, 0), (2, 2), (2, -2), (3, 1), (3, -1), (4, 0)], r, t, norm=True))
+            qm = np.asarray(P.Q2d_seq([(0, 0), (1, 0), (2, 0), (0, 1), (1, 1), (0, -1), (2, -1), (0, 2), (1, -2)], np.minimum(r, 1.0), t))
+        for kind, M0 in (('zernike', zm), ('Q2d', qm)):
+            M = M0.copy()
+            M[:, outside] = np.nan
+            c = rng.normal(size=M.shape[0])
+            desc = {'fn': 'lstsq', 'basis': kind, 'n': n, 'diameter': diam, 'class': f'lstsq:aperture-limited-basis:{kind}'}
+            ctx.case(desc)
+            ctx.observe('classJ.validity-patterns')
+            with guard('lstsq', desc, 'modes-nonfinite-at-masked-samples'):
+                data = P.sum_of_2d_modes(M, c)
+                cref, ok, cond, A, b = ls_oracle(M0, np.where(outside, np.nan, np.tensordot(c, M0, axes=(0, 0))))
+                if not ok or cond > 1e6:
+                    ctx.skip('lstsq:rank-deficient-or-ill-conditioned-on-valid-samples')
+                    continue
+                ctx.require('lstsq.ignores-exactly-nonfinite', bool(np.isnan(data[outside]).all() and np.isfinite(data[~outside]).all()), 'C10/sum_of_2d_modes/nan-pattern-of-aperture-limited-modes',
+                            'sum_of_2d_modes of modes that are NaN outside the aperture is not NaN at exactly those samples', desc)
+                for form in (M, list(M)):
+                    ctx.close('lstsq.recovers-synthesis', P.lstsq(form, data), c, 'C10/lstsq/recovers-synthesis/modes-nonfinite-at-masked-samples:nan',
+                              'lstsq(aperture-limited modes, data synthesised from them) != the synthesising coefficients', desc, rtol=1e-8 * max(cond, 1.0), atol=1e-300, scale=sup(c))
+    # a design column with a pole at the one dropped sample (1/r at r = 0 on an even grid), 2-D and 1-D
+    for n in (16, 10) + ctx.pick((), (32, 64)):
+        x, y = make_xy_grid(n, diameter=2)
+        r, t = cart_to_polar(x, y)
+        if int((r == 0).sum()) != 1:
+            continue
+        with np.errstate(all='ignore'), quiet():
+            M = np.asarray([np.ones_like(r), P.hopkins(1, 1, 0, r, t, 1), P.hopkins(0, 2, 0, r, t, 1), 1 / r, -1 / r ** 2])
+        c = np.array([0.3, -1.2, 0.7, 0.05, 0.01])
+        desc = {'fn': 'lstsq', 'basis': 'ones, r cos t, r^2, 1/r, -1/r^2', 'n': n, 'class': 'lstsq:column-with-a-pole-at-the-dropped-sample'}
+        ctx.case(desc)
+        ctx.observe('classJ.validity-patterns')
+        with guard('lstsq', desc, 'modes-nonfinite-at-masked-samples'), np.errstate(all='ignore'):
+            data = P.sum_of_2d_modes(M, c)
+            fin = np.where(np.isfinite(M), M, 0.0)
+            cref, ok, cond, A, b = ls_oracle(fin, data)
+            if ok and cond <= 1e6:
+                ctx.close('lstsq.recovers-synthesis', P.lstsq(M, data), c, 'C10/lstsq/recovers-synthesis/modes-nonfinite-at-masked-samples:inf',
+                          'lstsq with a design column that has a pole at the one sample the data mark as ignored != the synthesising coefficients', desc, rtol=1e-8 * max(cond, 1.0), atol=1e-300, scale=sup(c))
+            else:
+                ctx.skip('lstsq:rank-deficient-or-ill-conditioned-on-valid-samples')
+    xx = np.linspace(-1, 1, 41)
+    for fl in ('nan', '+inf'):
+        M = np.asarray([xx ** j for j in range(4)])
+        M[:, :5] = np.nan if fl == 'nan' else np.inf
+        c = np.array([1.0, -2.0, 0.5, 3.0])
+        desc = {'fn': 'lstsq', 'basis': '1-D monomials, first samples undefined', 'fill': fl, 'class': 'lstsq:modes-nonfinite-at-masked-samples:1-D'}
+        ctx.case(desc)
+        ctx.observe('classJ.validity-patterns')
+        with guard('lstsq', desc, 'modes-nonfinite-at-masked-samples'):
+            data = np.tensordot(c, np.asarray([xx ** j for j in range(4)]), axes=(0, 0))
+            data[:5] = np.nan
+            ctx.close('lstsq.recovers-synthesis', P.lstsq(M, data), c, f'C10/lstsq/recovers-synthesis/modes-nonfinite-at-masked-samples:{"nan" if fl == "nan" else "inf"}',
+                      'lstsq (1-D samples) with modes undefined at exactly the masked samples != the synthesising coefficients', desc, rtol=1e-6, atol=1e-300, scale=sup(c))
+    # masks that are all-valid / single-valid-sample (one mode) / all-masked (out of domain: nothing to fit - excluded and counted)
+    m1 = np.array([1.0 + 0.5 * np.linspace(-1, 1, 12).reshape(3, 4)])
+    for pl, valid in (('all-valid', np.ones((3, 4), bool)), ('single-valid-sample', np.arange(12).reshape(3, 4) == 7), ('all-masked', np.zeros((3, 4), bool))):
+        data = np.where(valid, 1.75 * m1[0], np.nan)
+        Mh = m1.copy()
+        Mh[0][~valid] = np.nan
+        desc = {'fn': 'lstsq', 'basis': 'one mode', 'mask': pl, 'class': f'lstsq:validity:{pl}'}
+        ctx.case(desc)
+        if pl == 'all-masked':
+            ctx.skip('lstsq:no-valid-sample(out of domain: the basis is not independent on the valid samples)')
+            continue
+        ctx.observe('classJ.validity-patterns')
+        with guard('lstsq', desc, pl):
+            for lab, mo in (('finite-modes', m1), ('modes-nonfinite-at-masked-samples', Mh)):
+                ctx.close('lstsq.recovers-synthesis', P.lstsq(mo, data), np.array([1.75]), f'C10/lstsq/recovers-synthesis/{pl}', f'lstsq with a {pl} mask ({lab}) != the synthesising coefficient', desc,
+                          rtol=1e-10, atol=1e-300, scale=1.75)
+
+
 def run_hardening(ctx, counter):
     def mine():
         counter[0] += 1
@@ -1460,6 +1844,20 @@ def run_hardening(ctx, counter):
     for lens in ctx.pick([(19,), (41,), (60,)], [(19, 41), (60, 80), (100,), (150,)]):
         if mine():
             high_units(ctx, lens)
+    # hardening pass 3: classes G, H, I, J
+    sp = ctx.pick(2, 8)
+    for part in range(sp):
+        if mine():
+            scale_units(ctx, part, sp)
+            check_kept()
+    for fn in (special_parameter_units, special_point_units, packer_ordering_units, validity_units):
+        if mine():
+            fn(ctx)
+            check_kept()
+    lp = ctx.pick(2, 8)
+    for part in range(lp):
+        if mine():
+            coef_layout_units(ctx, part, lp)
     check_kept()
 
 
